@@ -583,7 +583,7 @@ def St.currentTimePattern (st : St) : Option TP.Pat :=
 
 /-- `_at_rvalue(include_reg)` -/
 def St.atRvalue (st : St) (includeReg : Bool := true) : Bool :=
-  if st.cur.isMark "{" || st.cur.isMark "[" then true
+  if st.cur.isMark "{" || st.cur.isMark "[" || st.cur.isMark "-" then true
   else match st.cur.ty with
     | .literalString | .number => true
     | .register => includeReg
